@@ -422,6 +422,11 @@ class ModuleFold:
                 self.store(t, x)
         elif isinstance(tg, ast.Attribute) and isinstance(tg.value, ast.Name) and tg.value.id == 'self' and getattr(self, 'attrs', None) is not None:
             self.attrs[tg.attr] = v
+        elif isinstance(tg, ast.Attribute):
+            base = self.lit().ev(tg.value)
+            if not getattr(base, '_sa_fold_ok', False):
+                raise NotLiteral('store target')
+            setattr(base, tg.attr, v)
         else:
             raise NotLiteral('store target')
 
